@@ -60,6 +60,9 @@ pub enum COp {
     Match(u64, OrderId),
     Cancel(OrderId),
     Amend(OrderId, u64),
+    /// the other update kinds: `away` = with a price different from the level's (removes like a cancel), otherwise
+    /// the level's own price (amends like UpdateQuantity). kind: 0 UpdatePrice, 1 UpdatePriceAndQuantity, 2 Replace
+    Upd { kind: u8, id: OrderId, price: u64, qty: u64, side: pricelevel::Side, away: bool },
     Read(String),
     Next,
 }
@@ -71,6 +74,11 @@ pub fn parse_cop(s: &str) -> Option<COp> {
         ["match", q, id] => COp::Match(q.parse().ok()?, parse_id(id)?),
         ["cancel", id] => COp::Cancel(parse_id(id)?),
         ["amend", id, n] => COp::Amend(parse_id(id)?, n.parse().ok()?),
+        ["mv.price", id, p] => COp::Upd { kind: 0, id: parse_id(id)?, price: p.parse().ok()?, qty: 0, side: pricelevel::Side::Buy, away: true },
+        ["mv.pq", id, p, n] => COp::Upd { kind: 1, id: parse_id(id)?, price: p.parse().ok()?, qty: n.parse().ok()?, side: pricelevel::Side::Buy, away: true },
+        ["mv.replace", id, p, n, sd] => COp::Upd { kind: 2, id: parse_id(id)?, price: p.parse().ok()?, qty: n.parse().ok()?, side: parse_side(sd)?, away: true },
+        ["same.pq", id, n] => COp::Upd { kind: 1, id: parse_id(id)?, price: 0, qty: n.parse().ok()?, side: pricelevel::Side::Buy, away: false },
+        ["same.replace", id, n, sd] => COp::Upd { kind: 2, id: parse_id(id)?, price: 0, qty: n.parse().ok()?, side: parse_side(sd)?, away: false },
         ["read", k] => COp::Read(k.to_string()),
         ["next"] => COp::Next,
         _ => return None,
@@ -138,6 +146,19 @@ fn worker(w: usize, prog: Vec<COp>, lvl: &PriceLevel, generator: &UuidGenerator,
                     Ok(o) => (format!("ok={}", show_opt_order(o.as_deref())), None),
                     Err(e) => (format!("err={}", e.to_string().replace(' ', "_")), None),
                 },
+                COp::Upd { kind, id, price, qty, side, away } => {
+                    // `away`: the given price (the generator makes it differ from the level's); otherwise the level's own
+                    let p = if *away { *price } else { lvl.price() };
+                    let u = match kind {
+                        0 => OrderUpdate::UpdatePrice { order_id: *id, new_price: p },
+                        1 => OrderUpdate::UpdatePriceAndQuantity { order_id: *id, new_price: p, new_quantity: *qty },
+                        _ => OrderUpdate::Replace { order_id: *id, price: p, quantity: *qty, side: *side },
+                    };
+                    match lvl.update_order(u) {
+                        Ok(o) => (format!("ok={}", show_opt_order(o.as_deref())), None),
+                        Err(e) => (format!("err={}", e.to_string().replace(' ', "_")), None),
+                    }
+                }
                 COp::Read(k) => (
                     match k.as_str() {
                         "vis" => lvl.visible_quantity().to_string(),
